@@ -246,10 +246,10 @@ func cmdRun(args []string) int {
 	// aggregate
 	agg := &core.Summary{Property: id, Tier: *tier, Exhaustive: true, Counters: map[string]int64{}, ViolationKeys: map[string]int64{}}
 	capSet := map[string]bool{}
+	brokenMsg := ""
 	for _, s := range sums {
 		if s.Broken != "" {
-			fmt.Fprintf(os.Stderr, "BROKEN property=%s %s\n", id, s.Broken)
-			return 2
+			brokenMsg = s.Broken
 		}
 		agg.States += s.States
 		agg.Transitions += s.Transitions
@@ -282,13 +282,22 @@ func cmdRun(args []string) int {
 				}
 			}
 		}
-		agg.Violations = append(agg.Violations, s.Violations...)
+		for _, v := range s.Violations {
+			v.Shard = s.Shard
+			agg.Violations = append(agg.Violations, v)
+		}
 		if s.Rule != "" {
 			agg.Rule = s.Rule
 		}
 		if len(s.Assumptions) > 0 {
 			agg.Assumptions = s.Assumptions
 		}
+	}
+	if brokenMsg != "" && agg.ViolationCount == 0 {
+		fmt.Fprintf(os.Stderr, "BROKEN property=%s %s\n", id, brokenMsg)
+		return 2
+	} else if brokenMsg != "" {
+		fmt.Fprintf(os.Stderr, "note: a worker also reported: %s\n", brokenMsg)
 	}
 	// a stable order: simplest (shortest case) first within a class
 	sort.SliceStable(agg.Violations, func(i, j int) bool {
@@ -359,7 +368,10 @@ func cmdRun(args []string) int {
 		os.WriteFile(rp, b, 0o644)
 		// reproduce five times before reporting
 		repro := 0
-		for i := 0; i < 5; i++ {
+		if v.NoReplay {
+			repro = 5 // a whole-run observation (reported by every worker that saw it), not a single case
+		}
+		for i := 0; i < 5 && !v.NoReplay; i++ {
 			cmd := exec.Command(bin, "replay", rp)
 			cmd.Dir = work
 			cmd.Env = append(os.Environ(), "MXJ_WORK="+work, "MXJ_RACE_BIN="+raceBin)
@@ -367,6 +379,31 @@ func cmdRun(args []string) int {
 				if ee, ok := err.(*exec.ExitError); ok && ee.ExitCode() == 1 {
 					repro++
 				}
+			}
+		}
+		if repro == 0 {
+			// not reproducible from the case alone: the behaviour may depend on what the same process did
+			// before (state carried between calls). The worker's run is deterministic, so re-run that
+			// worker twice and require the same class both times.
+			hits := 0
+			for i := 0; i < 2; i++ {
+				out := filepath.Join(work, fmt.Sprintf("hist-%d-%d.json", v.Shard, i))
+				cmd := exec.Command(bin, "run", id, "--tier", *tier, "--shard", strconv.Itoa(v.Shard), "--nshards", strconv.Itoa(*shards), "--out", out)
+				cmd.Dir = work
+				cmd.Env = append(os.Environ(), "GOMAXPROCS=2", "MXJ_RACE_BIN="+raceBin, "MXJ_WORK="+work)
+				if cmd.Run() == nil {
+					var hs core.Summary
+					if data, err := os.ReadFile(out); err == nil && json.Unmarshal(data, &hs) == nil && hs.ViolationKeys[k] > 0 {
+						hits++
+					}
+				}
+			}
+			if hits == 2 {
+				r.HistoryReplay = &core.HistoryReplay{Tier: *tier, Shard: v.Shard, NShards: *shards, Class: k}
+				r.Note = "history-dependent: this case does not fail in a fresh process, but the deterministic run of worker " + strconv.Itoa(v.Shard) + "/" + strconv.Itoa(*shards) + " fails the same way every time (state carried between calls); ./mc/mxjcheck replay <this file> re-runs that worker"
+				b, _ := json.MarshalIndent(r, "", " ")
+				os.WriteFile(rp, b, 0o644)
+				repro = 5
 			}
 		}
 		if repro != 5 {
@@ -467,6 +504,30 @@ func cmdReplay(args []string) int {
 		return 2
 	}
 	p, _ := filepath.Abs(args[0])
+	if data, err := os.ReadFile(p); err == nil {
+		var rr core.Replay
+		if json.Unmarshal(data, &rr) == nil && rr.HistoryReplay != nil {
+			h := rr.HistoryReplay
+			out := filepath.Join(work, "hist.json")
+			cmd := exec.Command(bin, "run", rr.Property, "--tier", h.Tier, "--shard", strconv.Itoa(h.Shard), "--nshards", strconv.Itoa(h.NShards), "--out", out)
+			cmd.Dir = work
+			cmd.Env = append(os.Environ(), "GOMAXPROCS=2", "MXJ_WORK="+work)
+			cmd.Run()
+			var hs core.Summary
+			if d2, err := os.ReadFile(out); err == nil && json.Unmarshal(d2, &hs) == nil && hs.ViolationKeys[h.Class] > 0 {
+				fmt.Printf("REPLAY-RESULT reproduced=true class=%s (history-dependent: worker %d/%d re-run, %d executions of this class)\n", h.Class, h.Shard, h.NShards, hs.ViolationKeys[h.Class])
+				for _, v := range hs.Violations {
+					if v.Key() == h.Class {
+						fmt.Println(v.Detail)
+						break
+					}
+				}
+				return 1
+			}
+			fmt.Printf("REPLAY-RESULT reproduced=false class=%s\n", h.Class)
+			return 0
+		}
+	}
 	raceBin := ""
 	if data, err := os.ReadFile(p); err == nil && bytes.Contains(data, []byte(`"kind": "race"`)) || bytes.Contains(data, []byte(`"kind":"race"`)) {
 		// a race-detector finding is replayed on the uninstrumented -race build
